@@ -496,8 +496,10 @@ def finish(mod, ctx, proof, open_sigs, newf):
         "wall_s": round(ctx.elapsed(), 2),
         "violations": len(newf) + (1 if (ctx.tie_breaks and not newf) else 0),
     }
-    (VERIF / "evidence").mkdir(exist_ok=True)
-    (VERIF / "evidence" / f"{pid}.json").write_text(json.dumps(ev, indent=1, default=repr))
+    # runs against a scratch copy (VERIF_REPO set: mutant self-tests) must not overwrite the evidence
+    evdir = VERIF / "evidence" if str(REPO) == "/repo" else BUILD / "evidence-scratch"
+    evdir.mkdir(parents=True, exist_ok=True)
+    (evdir / f"{pid}.json").write_text(json.dumps(ev, indent=1, default=repr))
     for l in lines:
         print(l)
     print(f"[{pid}] tier={ctx.tier} seed={ctx.seed} theorems={n_thm} discharged={discharged} "
